@@ -108,10 +108,10 @@ class LP(object):
         x = self.fresh_point(E, name + ".v")
         feas = self.feasible(x)
         if not E.exists_fork(list(x.values()), feas, name=name + ".oracle_feasible"):
-            if not E.symbolic and E.feasible(self.feasible(x, slack=1e-5)):
-                # numeric replay inside the solver's tolerance band: infeasible by less than 1e-5,
+            if not E.symbolic and E.feasible(self.feasible(x, slack=1e-3)):
+                # numeric replay inside the solver's tolerance band: infeasible by less than 1e-3 (GLPK was seen to accept 1.5e-4),
                 # a float solver may legitimately call it feasible - no verdict from this instance
-                raise vsym.Abort("tolerance band: infeasible by less than 1e-5")
+                raise vsym.Abort("tolerance band: infeasible by less than 1e-3")
             return "infeasible", None, None, None
         sgn = 1 if sense == "max" else -1
         if self._unbounded(c, sgn):
